@@ -231,6 +231,9 @@ Apply(M, o) ==
          [] o.op = "ADDRESS"   -> SetTop(M, [f EXCEPT !.pc = @ + 1, !.acc = "@" \o f.self])
          [] o.op = "CALLVALUE" -> SetTop(M, [f EXCEPT !.pc = @ + 1, !.acc = ToString(f.value)])
          [] o.op = "CDLOAD"    -> SetTop(M, [f EXCEPT !.pc = @ + 1, !.acc = f.input])
+         [] o.op = "HOP"       -> Next1(M)   \* a JUMP over a block of 0x5b bytes inside a PUSH32 immediate: no effect, as long as the
+                                              \* jump-destination analysis of THIS frame's code is the one consulted (the assembler
+                                              \* shifts every contract's layout so that targets of one are immediates of another)
          [] o.op = "EXTCODEHASH" ->
               \* EIP-1052: 0 for an EMPTY account (nonce 0, balance 0, no code) whether or not a state object exists
               \* (a zero-value call to a precompile or, before EIP-158, to a fresh address leaves such an object),
